@@ -835,8 +835,16 @@ func (e *Exec) mkSeq(t *Type, arr, n string) Term {
 	return Term{fmt.Sprintf("(mk!%s %s %s)", e.Sort(t), arr, n), t}
 }
 
+// mapKeyName: the heap class of a Go map type. Reference-typed elements of different Go types get different
+// classes (Go's type system keeps such maps apart), everything else is classified by SMT sort.
 func mapKeyName(e *Exec, t *Type) string {
-	return mangle(e.Sort(t.Key)) + "!" + mangle(e.Sort(t.Elem))
+	el := mangle(e.Sort(t.Elem))
+	if t.Elem.K == KRef && t.Elem.Name != "" {
+		el = "R." + mangle(shortStructName(t.Elem.Name))
+	} else if t.Elem.K == KMap {
+		el = "M." + mapKeyName(e, t.Elem)
+	}
+	return mangle(e.Sort(t.Key)) + "!" + el
 }
 
 func (e *Exec) mapDomArr(st *State, t *Type) Term {
